@@ -39,9 +39,16 @@ pub struct Hub {
 }
 
 impl Hub {
+    /// bit 0 = no data, bit 1 = no events, bits 2-3 = how the event type is spelled (a module may call its events
+    /// whatever it likes: the rules for contract responses do not apply to it)
     fn answer(&self, events: Vec<cosmwasm_std::Event>, data: &[u8]) -> AppResponse {
         let shape = *self.shape.borrow();
+        let ty = Self::event_type(shape);
+        let events: Vec<cosmwasm_std::Event> = events.into_iter().map(|e| cosmwasm_std::Event::new(ty).add_attributes(e.attributes)).collect();
         AppResponse { events: if shape & 2 == 0 { events } else { vec![] }, data: if shape & 1 == 0 { Some(Binary::from(data.to_vec())) } else { None } }
+    }
+    pub fn event_type(shape: u8) -> &'static str {
+        ["rec", "r", " ", "_wasm-x"][(shape >> 2 & 3) as usize]
     }
     fn fails(&self, m: &'static str) -> bool {
         self.failing.borrow().get(m).copied().unwrap_or(false)
@@ -449,7 +456,7 @@ pub fn exec_cell(w: &mut RWorld, k: Kind, origin: Origin, ent: Ent, mode: RMode,
         return None; // cannot be expressed in the Empty message type
     }
     let to = w.puppets[2].clone();
-    *w.hub.shape.borrow_mut() = ((n ^ (n >> 2) ^ (n >> 5) ^ (n >> 9)) % 4) as u8;
+    *w.hub.shape.borrow_mut() = ((n ^ (n >> 2) ^ (n >> 5) ^ (n >> 9)) % 16) as u8;
     let msg = make_msg(k, n, &to);
     let sibling = if with_sibling && origin != Origin::Top { Some(make_msg(if k == Kind::Ibc { Kind::Gov } else { Kind::Ibc }, n + 1000, &to)) } else { None };
     let sibling_module = sibling.as_ref().map(|_| if k == Kind::Ibc { "gov" } else { "ibc" });
@@ -562,9 +569,12 @@ pub fn exec_cell(w: &mut RWorld, k: Kind, origin: Origin, ent: Ent, mode: RMode,
                 })
             };
             let want_event = shape & 2 == 0 && !matches!(k, Kind::Stargate | Kind::Any);
-            let ok = trace.iter().any(|t| matches!(&t.reply, Some((2, _, ReplySeen::Ok { data, events })) if data.as_ref().map(|d| d.to_vec()) == want && events.iter().any(|e| e.ty == "rec") == want_event));
+            let ok = trace.iter().any(|t| matches!(&t.reply, Some((2, _, ReplySeen::Ok { data, events })) if data.as_ref().map(|d| d.to_vec()) == want && events.iter().any(|e| e.ty == Hub::event_type(shape)) == want_event));
             rep.bump("c17/reply_data_from_module_checked");
             rep.bump(&format!("c17/reply_after_module_answer/{}{}", if shape & 1 == 0 { "data" } else { "no-data" }, if shape & 2 == 0 { "+events" } else { "+no-events" }));
+            if shape & 2 == 0 {
+                rep.bump(&format!("c17/module_event_type/{:?}", Hub::event_type(shape)));
+            }
             if !ok {
                 return Some(("module-response-not-delivered-to-reply".into(), format!("{}: trace replies {:?}", ctx, trace.iter().filter_map(|t| t.reply.clone()).collect::<Vec<_>>())));
             }
